@@ -83,7 +83,13 @@ def over_limit_text(ctx, t, rng):
     """-> (kind, violating text, boundary text) for a converter with a declared limit, else None"""
     T = ctx.Types
     if type(t) is T.String and t.length is not None:
-        return ("over-long", "x" * (t.length + 1), "y" * t.length)
+        n = t.length
+        v = rng.random()
+        if n >= 3 and v < 0.3:      # a bare ampersand in the value (no entity: the value is the text)
+            return ("over-long", "R&D" + "x" * (n - 2), "R&D" + "y" * (n - 3))
+        if n >= 2 and v < 0.6:      # an entity: the VALUE is one character per entity; at the limit the raw text is longer than n
+            return ("over-long", "&amp;" + "x" * n, "&amp;" + "y" * (n - 1))
+        return ("over-long", "x" * (n + 1), "y" * n)
     if type(t) is T.Integer and t.length is not None:
         if rng.random() < 0.5:
             return ("over-limit-negative", str(-(10 ** t.length)), str(-(10 ** t.length - 1)))
@@ -131,6 +137,8 @@ def tree_mutants(ctx, cls, tree, rng):
             m = copy.deepcopy(tree); ea, eb, x = m[a], m[b], copy.deepcopy(m[lists[0]])
             # ... B, list child, A ...: two later elements swapped with a list child between them
             m.remove(ea); m.remove(eb); m.insert(a, eb); m.insert(a + 1, x); m.insert(a + 2, ea); out.append(("later-elements-swapped-around-list-child", "reject", m))
+    if cls.__name__ in ctx.hooked and len(lists) >= 2:
+        m = copy.deepcopy(tree); m.insert(lists[-1] + 1, copy.deepcopy(m[lists[0]])); out.append(("hook:list-child-repeated-apart", "model", m))
     # value limits on a data child
     leafs = [i for i in nonlist if kids[i].text and not isinstance(spec[attr_of(kids[i].tag)], T.SubAggregate)]
     rng.shuffle(leafs)
@@ -200,6 +208,37 @@ def kw_mutants(ctx, cls, args, kw, rng):
                 m = dict(kw); m[k] = viol; out.append((kind, "reject", args, m))
                 m = dict(kw); m[k] = bound; out.append(("boundary-" + kind, "accept", args, m))
                 break
+    # classes with a validate_args hook of their own: rearrangements of the members and of the optional keywords, verdict = the model's
+    if cls.__name__ in ctx.hooked:
+        if len(args) >= 2:
+            a2 = list(args); a2.append(copy.deepcopy(a2[0])); out.append(("hook:member-repeated-apart", "model", a2, kw))
+            a2 = list(args); rng.shuffle(a2); out.append(("hook:members-shuffled", "model", a2, kw))
+            a2 = list(args); a2.insert(0, copy.deepcopy(a2[-1])); out.append(("hook:last-member-repeated-first", "model", a2, kw))
+        # one member of every class the list admits, then a repeat of the first placed apart from it
+        pool = []
+        for k, t in spec.items():
+            if isinstance(t, T.ListAggregate):
+                j = H.gen_instance(ctx, t.__type__, rng, 1, 0.3)
+                if j is not None:
+                    pool.append(j)
+        if len(pool) >= 2:
+            out.append(("hook:one-member-of-each-class", "model", list(pool), kw))
+            out.append(("hook:member-class-repeated-apart", "model", list(pool) + [copy.deepcopy(pool[0])], kw))
+            out.append(("hook:member-class-repeated-apart", "model", [pool[0], pool[1], copy.deepcopy(pool[0])], kw))
+            out.append(("hook:member-class-repeated-adjacent", "model", [pool[0], copy.deepcopy(pool[0])] + pool[1:], kw))
+        if args:
+            out.append(("hook:no-members", "model", [], kw))
+            out.append(("hook:one-member", "model", [args[0]], kw))
+        opt = [k for k, t in spec.items() if not getattr(t, "required", False) and not isinstance(t, (T.ListAggregate, T.ListElement, T.Unsupported))]
+        for k in rng.sample(opt, min(3, len(opt))):
+            m = dict(kw)
+            if m.get(k) is not None:
+                del m[k]; out.append(("hook:optional-dropped", "model", args, m))
+            else:
+                t = spec[k]
+                v = H.gen_instance(ctx, t.__type__, rng, 1, 0.2) if isinstance(t, T.SubAggregate) else H.gen_value(ctx, t, rng)
+                if v is not None:
+                    m[k] = v; out.append(("hook:optional-added", "model", args, m))
     for kind, groups in (("opt", cls.optionalMutexes), ("req", cls.requiredMutexes)):
         for g in groups:
             live = [x for x in g if x in spec and not isinstance(spec[x], (T.ListAggregate, T.ListElement, T.Unsupported))]
@@ -251,7 +290,7 @@ def run(rep, tier, rng):
             for name, expect, a2, k2 in kw_mutants(ctx, cls, args, kw, rng):
                 c, out = H.case_cons(ctx, cls, a2, k2); items.append(c)
                 desc = {"route": "kw", "cls": cls.__name__, "mutation": name, "kwargs": {k: repr(v)[:60] for k, v in k2.items()}, "args": [repr(a)[:60] for a in a2]}
-                meta.append(dict(desc, what="construct"))
+                meta.append(dict(desc, what="construct", impl_ok=(out[0] == "ok")))
                 rep.count(c, kind="kw:%s:%s" % (name, out[0]))
                 stats[name] = stats.get(name, 0) + 1
                 if expect == "reject" and out[0] == "ok":
@@ -289,7 +328,7 @@ def run(rep, tier, rng):
                     except ValueError:
                         pass
                 desc = {"route": "tree", "cls": cls.__name__, "mutation": name, "xml": ET.tostring(m).decode()[:3000]}
-                meta.append(dict(desc, what="from_etree"))
+                meta.append(dict(desc, what="from_etree", impl_ok=(out[0] == "ok")))
                 rep.count(c, kind="tree:%s:%s" % (name, out[0]))
                 stats[name] = stats.get(name, 0) + 1
                 if expect == "reject" and out[0] == "ok":
@@ -308,6 +347,15 @@ def run(rep, tier, rng):
     bad = C.coq_bad_indices(PROP, "mutants", IMPORTS, "ccase_ok S", "ccase", items, shard=200, prelude="Local Open Scope string_scope.")
     for i in bad[:30]:
         rep.disagreements.append(dict(meta[i], case=items[i][:1500]))
+    # search for a failing input among the disagreements: the implementation built an instance although the modelled constraints
+    # (class table + validate_args hooks, validated against the pinned source) refuse the input
+    cand = [i for i in bad if meta[i].get("impl_ok") and meta[i].get("mutation") not in (None, "none")]
+    if cand:
+        rej = C.coq_bad_indices(PROP, "rejects", IMPORTS, "fun c => negb (ccase_model_rejects S c)", "ccase", [items[i] for i in cand], shard=200, prelude="Local Open Scope string_scope.")
+        for j in rej[:20]:
+            m = meta[cand[j]]
+            rep.failures.append(C.Failure("%s:%s:accepted-though-modelled-constraints-refuse" % (m.get("route"), m.get("mutation")),
+                                          "%s: the %s route accepts an input (mutation %s) that the class's constraints as modelled refuse" % (m.get("cls"), m.get("route"), m.get("mutation")), m))
     bad = C.coq_bad_indices(PROP, "typedlimits", P01.TIMPORTS, "tcase_ok ety_table S", "tcase", titems, shard=150, prelude="Local Open Scope string_scope.")
     for i in bad[:30]:
         rep.disagreements.append(dict(tmeta[i], case=titems[i][:1500]))
